@@ -92,6 +92,10 @@ DECLS1 = [
     "class K{n}:\n    @classmethod\n    def __class_getitem__(cls, item: {T}) -> {T}: ...\n    def __init_subclass__(cls, a: {T}) -> None: ...\n    def __new__(cls, a: {T}) -> K{n}: ...\n",
     "class K{n}:\n    class N:\n        class M:\n            y: {T}\n",
     "class K{n}:\n    class N: ...\n    class M(A): ...\n\ndef f{n}(a: K{n}.N) -> {T}: ...\n",
+    # one name at two scopes: a module-level class and a nested class, each used after both are defined
+    "class Meta{n}:\n    x: {T}\n\nclass K{n}:\n    class Meta{n}:\n        y: {T}\n    def m(self, a: Meta{n}) -> None: ...\n\ndef f{n}(a: Meta{n}, b: K{n}.Meta{n}) -> {T}: ...\n",
+    "class K{n}:\n    class Meta{n}:\n        y: {T}\n\nclass Meta{n}:\n    x: {T}\n\ndef f{n}(a: Meta{n}, b: K{n}.Meta{n}) -> {T}: ...\n",
+    "def g{n}(a: {T}) -> {T}: ...\n\nclass K{n}:\n    def g{n}(self) -> {T}: ...\n    x: {T}\n\nx: K{n}\n",
 ]
 DECLS2 = [
     "def f{n}(a: {T}, b: {U}) -> {U}: ...\n",
